@@ -33,7 +33,19 @@ pub fn expected_counts(db: &FixtureDatabase, root: &str) -> BTreeMap<(String, St
 }
 
 pub fn cli_counts_subset(rep: &Report, n: usize) -> Value {
-    let lays = cli_layouts(n, false);
+    let mut lays = cli_layouts(n, false);
+    // plus every project-only layout in which the name has exactly one definition (requests that cannot
+    // see it must not be counted for it)
+    for l in Layout::enumerate(2, false) {
+        if l.distractors[3] || l.distractors[4] {
+            continue;
+        }
+        let ws = l.to_ws();
+        let ndefs: usize = ws.files.iter().map(|f| f.items.iter().filter(|i| matches!(i, Item::Fixture { name, .. } if name == "fx")).count()).sum();
+        if ndefs == 1 {
+            lays.push(l);
+        }
+    }
     let compared = AtomicU64::new(0);
     crate::report::par_batches(&lays, 4, |_i, lay| {
         let ws = lay.to_ws();
@@ -136,6 +148,18 @@ pub fn run(rep: &'static Report) {
             wss.push((ws, d));
         }
     }
+    // the CLI run on a sub-directory whose conftest imports a fixture module that lives above it
+    for unused_inside in [false, true] {
+        let mut files = vec![
+            FileSpec::new("helpers/fixtures.py", vec![Item::fixture("hx_used", &[]), Item::fixture("hx_unused", &[])]),
+            FileSpec::new("tests/conftest.py", vec![Item::StarImport { module: "helpers.fixtures".into() }, Item::fixture("cx", &[])]),
+            FileSpec::new("tests/test_a.py", vec![Item::test("a", &["hx_used", "cx"])]),
+        ];
+        if unused_inside {
+            files.push(FileSpec::new("tests/unit/conftest.py", vec![Item::fixture("ux_unused", &[])]));
+        }
+        wss.push((Ws { files }, json!({"cli_subdir": "tests", "unused_inside": unused_inside})));
+    }
     // fixtures two directory levels below the root, the level in between holding nothing of its own
     // (its only child mixes used and unused fixtures): the filtered listings must keep the subtree
     for outer in crate::layouts::CONF_ALL {
@@ -163,12 +187,18 @@ pub fn run(rep: &'static Report) {
         if let Some(t) = desc["pyproject"].as_str() {
             crate::e5::write_file(sc.path(), "pyproject.toml", t);
         }
-        let root = sc.path().to_string_lossy().to_string();
+        // the directory handed to the CLI (and to the reference scan): the tree's root, or a
+        // sub-directory of it whose conftest pulls in a module that lives above it
+        let scan_dir = match desc["cli_subdir"].as_str() {
+            Some(sub) => sc.path().join(sub),
+            None => sc.path().to_path_buf(),
+        };
+        let root = scan_dir.to_string_lossy().to_string();
         // reference: the library scanning the same tree in-process the way the language server does
         // at initialize (project configuration loaded from the root, its exclude patterns applied)
         let db = FixtureDatabase::new();
-        let cfg = pytest_language_server::config::Config::load(sc.path());
-        db.scan_workspace_with_excludes(sc.path(), &cfg.exclude);
+        let cfg = pytest_language_server::config::Config::load(&scan_dir);
+        db.scan_workspace_with_excludes(&scan_dir, &cfg.exclude);
         let mut want_unused: Vec<(String, String)> = Vec::new();
         let mut shadowed_dup = false;
         for e in db.definitions.iter() {
@@ -230,6 +260,11 @@ pub fn run(rep: &'static Report) {
         let (p, s, o) = (parse_list(&lp.stdout), parse_list(&ls.stdout), parse_list(&lo.stdout));
         for ((f, name), n) in &counts {
             // third-party site-packages files are displayed under the venv path as well
+            // (`fixtures list <dir>` prints the tree below <dir>: a module the scan followed an
+            // import to above that directory is not part of it — nothing to compare)
+            if f.starts_with('/') {
+                continue;
+            }
             compared.fetch_add(1, Ordering::Relaxed);
             let g = p.get(&(f.clone(), name.clone())).map(|i| count_of(i));
             if g != Some(*n) {
